@@ -574,6 +574,28 @@ static int unit_op (int n, char **t, int *a)
       free_svalue (slot (a[1]), "c06");
       *slot (a[1]) = *sp--;
     }
+  else if (!strcmp (t[0], "saddl"))
+    {
+      /* v[d] = <number> + v[s]: f_add with a number on the left */
+      push_number (0);		/* the slot of the left (number) operand: the macro stores the result there */
+      push_svalue (slot (a[2]));
+      {
+        char *y = t[3];
+        SVALUE_STRING_ADD_LEFT (y, "c06");
+      }
+      free_svalue (slot (a[1]), "c06");
+      *slot (a[1]) = *sp--;
+    }
+  else if (!strcmp (t[0], "sadd2"))
+    {
+      /* v[d] = v[s] + v[t]: f_add with two strings, both pushed */
+      push_svalue (slot (a[2]));
+      push_svalue (slot (a[3]));
+      SVALUE_STRING_JOIN (sp - 1, sp, "c06");
+      sp--;
+      free_svalue (slot (a[1]), "c06");
+      *slot (a[1]) = *sp--;
+    }
   else if (!strcmp (t[0], "schar"))
     {
       /* v[d][i] = c: push_indexed_lvalue unlinks the string, then the byte is stored */
@@ -705,9 +727,9 @@ static int applicable (int n, char **t, int *a)
     return n == 2 && a[1] >= 0 && a[1] < NSENT && sent_used[a[1]] && objok (sent_owner[a[1]])
       && hobj (sent_owner[a[1]]) == sent_ownerp[a[1]];
   if (!strcmp (op, "sappend") || !strcmp (op, "sjoin") || !strcmp (op, "sadd") || !strcmp (op, "schar")
-      || !strcmp (op, "srange"))
+      || !strcmp (op, "srange") || !strcmp (op, "saddl") || !strcmp (op, "sadd2"))
     {
-      int src = !strcmp (op, "sadd") ? a[2] : a[1];
+      int src = (!strcmp (op, "sadd") || !strcmp (op, "saddl") || !strcmp (op, "sadd2")) ? a[2] : a[1];
       svalue_t *sv;
       if (!SL (a[1]) || !SL (src))
         return 0;
@@ -718,8 +740,10 @@ static int applicable (int n, char **t, int *a)
         return 1;
       if (!strcmp (op, "sappend"))
         return n == 3;
-      if (!strcmp (op, "sadd"))
+      if (!strcmp (op, "sadd") || !strcmp (op, "saddl"))
         return n == 4;
+      if (!strcmp (op, "sadd2"))
+        return n == 4 && SL (a[3]) && slot (a[3])->type == T_STRING && (slot (a[3])->subtype & STRING_COUNTED) && !dangling (slot (a[3]));
       if (!strcmp (op, "sjoin"))
         return n == 3 && SL (a[2]) && slot (a[2])->type == T_STRING && (slot (a[2])->subtype & STRING_COUNTED);
       if (!strcmp (op, "schar"))
@@ -918,7 +942,7 @@ static int c06_cmd (char *line)
       {"fill", {1, 3, 0}}, {"assign", {1, 2, 0}}, {"aset", {1, 3, 0}}, {"aget", {1, 2, 0}},
       {"mset", {1, 2, 3}}, {"mdel", {1, 2, 0}}, {"push", {1, 0, 0}}, {"popto", {1, 0, 0}},
       {"setvar", {3, 0, 0}}, {"getvar", {1, 0, 0}}, {"oref", {1, 0, 0}}, {"call", {4, 5, 0}},
-      {"sent", {3, 4, 0}}, {"inp", {2, 3, 0}}, {"inpr", {2, 3, 0}}, {"arange", {1, 5, 0}}, {"arangev", {1, 4, 0}}, {"brange", {1, 0, 0}}, {"sappend", {1, 0, 0}}, {"sjoin", {1, 2, 0}}, {"sadd", {1, 2, 0}},
+      {"sent", {3, 4, 0}}, {"inp", {2, 3, 0}}, {"inpr", {2, 3, 0}}, {"arange", {1, 5, 0}}, {"arangev", {1, 4, 0}}, {"brange", {1, 0, 0}}, {"sappend", {1, 0, 0}}, {"sjoin", {1, 2, 0}}, {"sadd", {1, 2, 0}}, {"saddl", {1, 2, 0}}, {"sadd2", {1, 2, 3}},
       {"schar", {1, 0, 0}}, {"srange", {1, 0, 0}}, {"err", {1, 2, 0}}, {"efun", {2, 3, 0}}, {"fefun", {2, 3, 0}},
       {0, {0, 0, 0}}
     };
@@ -1155,6 +1179,7 @@ static int c06_cmd (char *line)
   if (!strcmp (t[0], "newarr") || !strcmp (t[0], "newmap") || !strcmp (t[0], "newcls") || !strcmp (t[0], "newbuf")
       || !strcmp (t[0], "newstr") || !strcmp (t[0], "newmstr") || !strcmp (t[0], "newfun") || !strcmp (t[0], "fill")
       || !strcmp (t[0], "sappend") || !strcmp (t[0], "sjoin") || !strcmp (t[0], "sadd") || !strcmp (t[0], "schar")
+      || !strcmp (t[0], "saddl") || !strcmp (t[0], "sadd2")
       || !strcmp (t[0], "srange"))
     track_slot (a[1]);
   else if (!strcmp (t[0], "arange") || !strcmp (t[0], "arangev") || !strcmp (t[0], "brange"))
